@@ -20,8 +20,7 @@ class VClock:
         self.ms += int(round(s * 1000))
 
 
-class Hang(Exception):
-    pass
+Hang = C.Hang
 
 
 def _alarm(signum, frame):
@@ -49,6 +48,8 @@ def make_server(script, retries, delay, clock, trace):
                 d, dt = None, self.idle
             clock.ms += dt
             trace.append(('R', d, dt))
+            if len(trace) > C.TRACE_LIMIT:
+                raise Hang()
             return d
 
         def _transmit(self, data):
@@ -247,6 +248,7 @@ def run_impl(script, retries, delay, reqs, loglevel=None, backend='stub', bauds=
                 res = 'ret=None' if r is None else 'ret=' + frame_token(r)
             except Hang:
                 res = 'hang'
+                del trace[:-40]           # an endless run: keep the tail only
             except Exception as e:  # noqa
                 res = 'exn=' + C.exn_token(e)[1:]
             finally:
